@@ -81,8 +81,11 @@ pub fn run(_h: &Ev, evs: &mut Vec<Value>) {
             let func = get_str(&e, "fn");
             let f = e.get("f").and_then(|v| v.as_str()).unwrap_or("");
             let arr = |k: &str| e.get(k).filter(|v| v.is_array()).map(bytes).unwrap_or_default();
-            let a = arr("a");
-            let b = arr("b");
+            // operands at chosen addresses modulo 64 ("oa", "ob"): a comparison must not depend on where its operands live
+            let off = |k: &str| e.get(k).and_then(|v| v.as_u64()).map(|x| x as usize);
+            let pa = Placed::new(&arr("a"), off("oa"));
+            let pb = Placed::new(&arr("b"), off("ob"));
+            let (a, b) = (pa.get(), pb.get());
             let c = get_usize_or(&e, "c", 0) as u64;
             match func {
                 "u8all" => Out::Val(
@@ -121,10 +124,10 @@ pub fn run(_h: &Ev, evs: &mut Vec<Value>) {
                         }
                     })
                 }
-                "arr8" => out_bool(arr8(f, &a, &b)),
+                "arr8" => out_bool(arr8(f, a, b)),
                 "sl8" => out_bool(match f {
-                    "ct_eq" => a.as_slice().ct_eq(b.as_slice()).is_true(),
-                    "ct_ne" => a.as_slice().ct_ne(b.as_slice()).is_true(),
+                    "ct_eq" => a.ct_eq(b).is_true(),
+                    "ct_ne" => a.ct_ne(b).is_true(),
                     _ => panic!("harness: unknown sl8 helper {}", f),
                 }),
                 "arr64" => out_bool(arr64(f, &u64s_of(&a), &u64s_of(&b))),
@@ -153,7 +156,7 @@ pub fn run(_h: &Ev, evs: &mut Vec<Value>) {
                     })
                 }
                 "opt" => {
-                    let o: CtOption<Vec<u8>> = (choice(c), a.clone()).into();
+                    let o: CtOption<Vec<u8>> = (choice(c), a.to_vec()).into();
                     Out::Val(match o.clone().into_option() {
                         Some(v) => [vec![1u8], v].concat(),
                         None => vec![0u8],
@@ -185,7 +188,7 @@ pub fn run(_h: &Ev, evs: &mut Vec<Value>) {
                     }
                 }
                 "mac" => {
-                    let (x, y) = (MacResult::new(&a), MacResult::new_from_owned(b.clone()));
+                    let (x, y) = (MacResult::new(&a), MacResult::new_from_owned(b.to_vec()));
                     out_bool(match f {
                         "eq" => x == y,
                         "ne" => x != y,
@@ -193,8 +196,8 @@ pub fn run(_h: &Ev, evs: &mut Vec<Value>) {
                     })
                 }
                 "tag" => {
-                    let x = Tag(a.as_slice().try_into().unwrap_or_else(|_| panic!("harness: tag needs 16 bytes")));
-                    let y = Tag(b.as_slice().try_into().unwrap_or_else(|_| panic!("harness: tag needs 16 bytes")));
+                    let x = Tag(a.try_into().unwrap_or_else(|_| panic!("harness: tag needs 16 bytes")));
+                    let y = Tag(b.try_into().unwrap_or_else(|_| panic!("harness: tag needs 16 bytes")));
                     out_bool(match f {
                         "eq" => x == y,
                         "ne" => x != y,
